@@ -408,6 +408,7 @@ def E2_graph_circuit(rep, flow: Flow):
                 rep.finding("E2", f"to_circuit:{nv}:{edges}", f"graph.py Graph.to_circuit for edges {edges} on {nv} vertices returns {rec!r}, not a circuit")
                 continue
             hs, czs = set(), set()
+            mult = {}
             other = []
             for ent in rec.log:
                 if ent[0] == "h":
@@ -415,15 +416,18 @@ def E2_graph_circuit(rep, flow: Flow):
                     hs |= set(qs)
                 elif ent[0] == "cz":
                     a, b = ent[1], ent[2]
-                    if isinstance(a, tuple):
-                        czs |= {frozenset(p) for p in zip(a, b)}
-                    else:
-                        czs.add(frozenset((a, b)))
+                    pairs = [frozenset(p) for p in zip(a, b)] if isinstance(a, tuple) else [frozenset((a, b))]
+                    for pr in pairs:
+                        czs.add(pr)
+                        mult[pr] = mult.get(pr, 0) + 1
                 else:
                     other.append(ent)
             first_cz = next((i for i, e in enumerate(rec.log) if e[0] == "cz"), len(rec.log))
             last_h = max((i for i, e in enumerate(rec.log) if e[0] == "h"), default=-1)
-            if hs != set(range(nv)) or czs != {frozenset(e) for e in edges} or other or last_h > first_cz:
+            even = sorted(tuple(sorted(pr)) for pr, k in mult.items() if k % 2 == 0)
+            if even:
+                rep.finding("E2", f"to_circuit:{nv}:{edges}", f"graph.py Graph.to_circuit for edges {edges}: the cz on {even[0]} is emitted {mult[frozenset(even[0])]} times (gate log {rec.log}); cz is its own inverse, an even number of them leaves the pair unentangled - the circuit prepares the graph state of a graph without that edge")
+            elif hs != set(range(nv)) or czs != {frozenset(e) for e in edges} or other or last_h > first_cz:
                 rep.finding("E2", f"to_circuit:{nv}:{edges}", f"graph.py Graph.to_circuit for edges {edges}: gate log {rec.log} is not 'h on all vertices, then cz on every edge'")
             else:
                 rep.ok("E2", 1, nontrivial=(nv, tuple(edges)), sample=f"n={nv} edges {edges}: {rec.log}")
@@ -663,7 +667,11 @@ def _k6_by_kernel_stub(rep, flow):
             raise consteval.Unsupported("kernel routine not consulted exactly once on the untouched-qubit probe")
         return res
     try:
-        verdict_untouched((0,) * 8)
+        try:
+            verdict_untouched((0,) * 8)
+        except CERaise as ex:
+            rep.finding("K6", f"untouched:raise:{ex.etype}", f"{ex.where or 'find_local_clifford_layer.py find_local_clifford_layer'}: raises {ex.etype} ({ex.msg[:80]}) for one operator X on qubit 0 of 2 qubits (R, S of shape 2x1; qubit 1 untouched) - the search must also serve fewer operators than qubits")
+            raise consteval.Unsupported("untouched-qubit probe raised")
         w = widths[-1]
         if w not in (4, 8):
             raise consteval.Unsupported(f"coefficient width {w} on the untouched-qubit probe")
@@ -722,6 +730,8 @@ def _k6_solve_dominates(flow):
         return      # solved in a helper: the stub evaluation decides whether it is consulted
     for st in body[:solve_at]:
         for r in [x for x in ast.walk(st) if isinstance(x, ast.Return)]:
+            if r.value is None or (isinstance(r.value, ast.Constant) and r.value.value is None):
+                raise AnalysisError(f"{pyfacts.where(f, r)}: 'no layer exists' is answered before the linear system is solved [{pyfacts.norm_stmt(r)}]: whether the shortcut's condition really excludes every layer - also for fewer operators than qubits - is outside the rules on filter and span (no verdict)")
             if r.value is not None and not (isinstance(r.value, ast.Constant) and r.value.value is None):
                 raise AnalysisError(f"{pyfacts.where(f, r)}: a layer is returned before the linear system is solved [{pyfacts.norm_stmt(r)}]: this fast path answers without the kernel search, its correctness is outside the rules on filter and span (no verdict)")
 
@@ -1000,6 +1010,111 @@ def E1_kernel_shape(rep, flow: Flow, fq="f2_algebra.null_space"):
             rep.finding("E1", f"{fq}:shape", f"{pyfacts.where(f, r)}: `return {txt}` has shape (0,) when the kernel is trivial; callers index .shape[0] / multiply by it as a (k, cols) matrix")
         else:
             rep.ok("E1", 1, nontrivial=(fq, "shape", txt), sample=f"{fq}: return {txt}")
+
+
+def K19_mod2_updates(rep, flow: Flow, fqs=("f2_algebra.rref", "f2_algebra.rref_and_basis_change", "f2_algebra.rank", "f2_algebra.null_space")):
+    """every arithmetic row update of an elimination stays inside {0, 1} for every integer dtype: the stored expression is
+    `... % 2`, `... & 1` or an exclusive-or of rows.  A sum / difference / product stored without the reduction leaves 2 or
+    -1 in the matrix (later `== 1` tests miss it); any other closing operation (abs, clip, astype(bool) ...) is outside the
+    rule: no verdict"""
+    rep.rule("K19", "row updates of the eliminations are reduced into {0, 1}: the stored arithmetic expression ends in `% 2`, `& 1` or is an exclusive-or", floor=1)
+    for fq in fqs:
+        try:
+            f = flow.prog.func(fq)
+        except AnalysisError:
+            continue
+        for st in [x for x in ast.walk(f.node) if isinstance(x, (ast.Assign, ast.AugAssign))]:
+            tg = st.target if isinstance(st, ast.AugAssign) else st.targets[0]
+            if not isinstance(tg, ast.Subscript):
+                continue
+            if isinstance(st, ast.AugAssign):
+                if isinstance(st.op, ast.BitXor):
+                    rep.ok("K19", 1, nontrivial=(fq, st.lineno), sample=f"{f.qualname}: {pyfacts.norm_stmt(st)[:80]}")
+                elif isinstance(st.op, (ast.Add, ast.Sub, ast.Mult)):
+                    rep.finding("K19", f"{fq}:aug:{type(st.op).__name__}", f"{pyfacts.where(f, st)}: the row update `{pyfacts.norm_stmt(st)}` is not reduced modulo 2: entries leave {{0, 1}} (1 + 1 = 2, 0 - 1 = -1 or 255) and later pivot tests no longer see them")
+                continue
+            v = st.value
+            arith = [b for b in ast.walk(v) if isinstance(b, ast.BinOp) and isinstance(b.op, (ast.Add, ast.Sub, ast.Mult, ast.BitXor, ast.Mod, ast.BitAnd))]
+            # only updates that combine matrix rows: some operand subscripts the array that is stored into
+            base = tg.value.id if isinstance(tg.value, ast.Name) else None
+            if not arith or base is None or not any(isinstance(x, ast.Subscript) and isinstance(x.value, ast.Name) and x.value.id == base for x in ast.walk(v)):
+                continue
+            top = v
+            closed = (isinstance(top, ast.BinOp) and ((isinstance(top.op, ast.Mod) and isinstance(top.right, ast.Constant) and top.right.value == 2) or
+                                                      (isinstance(top.op, ast.BitAnd) and isinstance(top.right, ast.Constant) and top.right.value == 1) or
+                                                      isinstance(top.op, ast.BitXor))) or \
+                     (isinstance(top, ast.Call) and ast.unparse(top.func).split(".")[-1] in ("bitwise_xor", "logical_xor", "add", "mat_mul"))
+            if closed:
+                rep.ok("K19", 1, nontrivial=(fq, st.lineno), sample=f"{f.qualname}: {pyfacts.norm_stmt(st)[:80]}")
+            elif isinstance(top, ast.BinOp) and isinstance(top.op, (ast.Add, ast.Sub, ast.Mult)):
+                rep.finding("K19", f"{fq}:{type(top.op).__name__}", f"{pyfacts.where(f, st)}: the row update `{pyfacts.norm_stmt(st)}` is not reduced modulo 2: entries leave {{0, 1}} (1 + 1 = 2, 0 - 1 = -1 or 255) and later pivot tests no longer see them")
+            else:
+                raise AnalysisError(f"{pyfacts.where(f, st)}: the row update `{pyfacts.norm_stmt(st)[:100]}` closes its arithmetic by something other than `% 2`, `& 1` or an exclusive-or: whether it stays inside {{0, 1}} for every integer dtype (unsigned ones wrap around on subtraction) is a value-level question (no verdict)")
+
+
+def K18_dimension_formula(rep, flow: Flow):
+    """rank + nullity = number of columns, structurally: (a) the rank is the length of the pivot list that rref returns
+    (the list the kernel routine complements); (b) an early return of an EMPTY kernel basis is taken only when every
+    column is a pivot column - its guard is evaluated for pivot lists of length 0, 1 and cols"""
+    rep.rule("K18", "rank and kernel agree on the pivot list: the rank is its length; the kernel routine hands out an empty basis early only if every column is a pivot column", floor=1)
+    prog = flow.prog
+    # (a) rank
+    f = prog.func("f2_algebra.rank")
+    for r in [x for x in ast.walk(f.node) if isinstance(x, ast.Return) and x.value is not None]:
+        v = r.value
+        while isinstance(v, ast.Call) and isinstance(v.func, ast.Name) and v.func.id == "int" and len(v.args) == 1:
+            v = v.args[0]
+        piv_names = set()
+        for a in ast.walk(f.node):
+            if isinstance(a, ast.Assign) and isinstance(a.targets[0], ast.Tuple) and len(a.targets[0].elts) == 2 and isinstance(a.value, ast.Call) and ast.unparse(a.value.func).split(".")[-1] == "rref" \
+                    and isinstance(a.targets[0].elts[1], ast.Name):
+                piv_names.add(a.targets[0].elts[1].id)
+        def is_pivots(e):
+            if isinstance(e, ast.Name) and e.id in piv_names:
+                return True
+            return isinstance(e, ast.Subscript) and isinstance(e.slice, ast.Constant) and e.slice.value == 1 and isinstance(e.value, ast.Call) and ast.unparse(e.value.func).split(".")[-1] == "rref"
+        if isinstance(v, ast.Call) and isinstance(v.func, ast.Name) and v.func.id == "len" and len(v.args) == 1 and is_pivots(v.args[0]):
+            rep.ok("K18", 1, nontrivial=("rank", "len(pivots)"), sample=f"rank: {pyfacts.norm_stmt(r)}")
+            continue
+        calls = [c for c in ast.walk(v) if isinstance(c, ast.Call) and isinstance(c.func, ast.Attribute)]
+        if any(c.func.attr in ("trace", "diagonal", "diag") for c in calls):
+            continue        # reported by K17b
+        if any(c.func.attr in ("argmin", "argmax") for c in calls):
+            rep.finding("K18", "rank:argext", f"{pyfacts.where(f, r)}: the rank is an argmin / argmax over a row test of the reduced matrix [{pyfacts.norm_stmt(r)}]: 'position of the first row without / with the feature' is 0 when NO row has it, so a matrix whose reduced form has no zero row (full row rank, e.g. the identity) gets rank 0")
+            continue
+        raise AnalysisError(f"{pyfacts.where(f, r)}: the rank is not the length of the pivot list of rref [{pyfacts.norm_stmt(r)}]: whether the other computation counts the pivots is a value-level question (no verdict)")
+    # (b) early empty returns of the kernel routine
+    g = prog.func("f2_algebra.null_space")
+    ce = CE(prog)
+    piv = cols = None
+    for a in ast.walk(g.node):
+        if isinstance(a, ast.Assign) and isinstance(a.targets[0], ast.Tuple) and len(a.targets[0].elts) == 2 and isinstance(a.value, ast.Call) and ast.unparse(a.value.func).split(".")[-1] == "rref" \
+                and isinstance(a.targets[0].elts[1], ast.Name):
+            piv = a.targets[0].elts[1].id
+        if isinstance(a, ast.Assign) and isinstance(a.targets[0], ast.Name) and isinstance(a.value, ast.Subscript) and isinstance(a.value.value, ast.Attribute) and a.value.value.attr == "shape" \
+                and isinstance(a.value.slice, ast.Constant) and a.value.slice.value == 1:
+            cols = a.targets[0].id
+    for st in g.node.body:
+        if not (isinstance(st, ast.If) and any(isinstance(x, ast.Return) for x in st.body)):
+            continue
+        ret = next(x for x in st.body if isinstance(x, ast.Return))
+        v = ret.value
+        empty = isinstance(v, ast.Call) and ast.unparse(v.func) in ("np.zeros", "np.empty") and v.args and isinstance(v.args[0], (ast.Tuple, ast.List)) and len(v.args[0].elts) == 2 \
+            and isinstance(v.args[0].elts[0], ast.Constant) and v.args[0].elts[0].value == 0
+        names = {x.id for x in ast.walk(st.test) if isinstance(x, ast.Name)} - {"len", "np"}
+        if not empty or piv is None or cols is None or not names <= {piv, cols}:
+            raise AnalysisError(f"{pyfacts.where(g, st)}: the kernel routine returns early under `{ast.unparse(st.test)}`: neither an empty basis under a condition on the pivot list alone nor anything else K18 can decide (no verdict)")
+        table = {}
+        try:
+            for npiv in (0, 1, 3):
+                table[npiv] = bool(ce.truth(ce.ev(st.test, {piv: list(range(npiv)), cols: 3}, g)))
+        except (CERaise, AnalysisError) as ex:
+            raise AnalysisError(f"{pyfacts.where(g, st)}: guard `{ast.unparse(st.test)}` of the early return cannot be evaluated ({str(ex)[:80]})")
+        bad = [k for k in (0, 1) if table[k]]
+        if bad:
+            rep.finding("K18", f"kernel:early-empty:{bad[0]}", f"{pyfacts.where(g, st)}: an empty kernel basis is returned when `{ast.unparse(st.test)}`, which holds for {bad[0]} pivot column(s) out of 3: the kernel then has dimension {3 - bad[0]} (for no pivot at all - the zero matrix - it is the whole space), not 0")
+        else:
+            rep.ok("K18", 1, nontrivial=("kernel", ast.unparse(st.test)), sample=f"null_space: early empty basis only when `{ast.unparse(st.test)}` (all columns are pivot columns)")
 
 
 # ---------------------------------------------------------------------------------------------
